@@ -75,6 +75,19 @@ for m in metas:
 if not metas:
     out.append("| (none recorded yet) | | | | |")
 out.append("")
+hm = sorted(glob.glob(os.path.join(V, "seeded", "harmless", "*", "meta.json")))
+if hm:
+    out += ["### Behaviour-preserving rewrites (false-alarm test)", "",
+            "Independently written harmless rewrites of the anchored code (loop / condition restructuring, helper extraction,",
+            "equivalent data structures, reordered independent statements, reworded log and error texts), three per property,",
+            "each confirmed to build (with and without the `verif` tag) and to pass the existing tests, then run against the",
+            "property's own check and the checks of the properties sharing the rewritten files (`tools/refactor_eval.py`,",
+            "kept under `seeded/harmless/<id>/`). Expected and required verdict: quiet.", "",
+            "| rewrite | checks run | verdict |", "|---|---|---|"]
+    for m in hm:
+        j = json.load(open(m))
+        out.append(f"| `{j['refactor']}` | {', '.join(j.get('checks', {}).keys())} | {j.get('verdict','')} |")
+    out.append("")
 dv = os.path.join(V, "design", "_deviations.md")
 if os.path.exists(dv):
     out += ["-" * 87, "", open(dv).read().rstrip(), ""]
